@@ -59,7 +59,7 @@ def cfg_text(constants, invariants, properties, emit):
 
 
 def _tlc_cmd(module, cfg, md, workers, heap):
-    return ["java", "-XX:+UseParallelGC", f"-Xmx{heap}", "-cp", common.TLA_CP, "tlc2.TLC", "-workers",
+    return ["java", "-XX:+UseParallelGC", "-Xss64m", f"-Xmx{heap}", "-cp", common.TLA_CP, "tlc2.TLC", "-workers",
             str(workers), "-metadir", md, "-noGenerateSpecTE", "-config", cfg,
             os.path.join(common.SPEC, module + ".tla")]
 
